@@ -10,7 +10,7 @@ PROPERTY = 'C15'
 RULE = ('(table) the full product local tls_enable x require_tls {None,True,False} x peer CAN_TLS x handshake outcome '
         '{ok, fails} x side {active, passive} x peer certificate {none, matching IP SAN} is enumerated against a scripted '
         'peer (96 cells).  (certificates) Hypothesis draws the SAN multiset of the peer certificate over {IP matching the '
-        'peer address, other IP, DNS names, URI equal to the announced node ID, other URI, none, no certificate at all}, '
+        'peer address, other IP, DNS names, URI equal to the announced node ID, other URI, a URI differing from the announced node ID only in the letter case of its path, none, no certificate at all}, '
         'the announced node ID, require_host_authn x require_node_authn, side, connect by address or by host name; certificates are built with '
         'cryptography.x509 and handed over by a scripted TLS socket.  Oracle = independent policy function from the '
         'property text: TLS attempted <=> both offer; require_tls=True never proceeds in clear, False never secured; '
@@ -29,11 +29,11 @@ ASSUMPTIONS = [
     'name to the peer address; otherwise the peer is reached by IP literal (no DNS-ID reference: DNS SANs can neither match '
     'nor contradict)',
 ]
-EXHAUSTIVE_PART = 'TLS negotiation table: 96 cells against a scripted peer, the 12 x 12 = 144 pairs of cells with two real endpoints, and every certificate with <= 2 SAN entries (29 sets) x side x connect-by-name x require_host x require_node'
+EXHAUSTIVE_PART = 'TLS negotiation table: 96 cells against a scripted peer, the 12 x 12 = 144 pairs of cells with two real endpoints, and every certificate with <= 2 SAN entries (37 sets) x side x connect-by-name x require_host x require_node'
 
 PEER_ADDR = '10.0.0.2'      # address of the scripted peer when the real endpoint is active
 PEER_ADDR_PASSIVE = '10.0.0.1'
-SAN_KINDS = ['ip-match', 'ip-other', 'dns-a', 'dns-b', 'uri-match', 'uri-other', 'uri-other2']
+SAN_KINDS = ['ip-match', 'ip-other', 'dns-a', 'dns-b', 'uri-match', 'uri-other', 'uri-other2', 'uri-case']
 _cert_cache = {}
 
 
@@ -52,7 +52,7 @@ def strategy(tier):
         'kind': st.just('cert'),
         'active': st.booleans(),
         'sans': st.one_of(st.just(None), st.lists(st.sampled_from(SAN_KINDS), max_size=4)),
-        'nodeid': st.sampled_from(['dtn://peer/', 'dtn://peer/', 'ipn:7.0', '']),
+        'nodeid': st.sampled_from(['dtn://peer/', 'dtn://peer/', 'ipn:7.0', '', 'dtn://peer/Svc']),
         'req_host': st.booleans(),
         'req_node': st.booleans(),
         'require_tls': st.sampled_from([None, True]),
@@ -79,6 +79,10 @@ def enumerate_cases(tier):
         if req_node and not by_name:
             yield {'kind': 'cert', 'active': active, 'sans': list(sans), 'nodeid': 'dtn://peer/', 'req_host': req_host,
                    'req_node': req_node, 'require_tls': None, 'by_name': by_name, 'idle': 5}
+        if 'uri-case' in sans:
+            # the announced node ID has a path with letters: the certificate names it with the other letter case
+            yield {'kind': 'cert', 'active': active, 'sans': list(sans), 'nodeid': 'dtn://peer/Svc', 'req_host': req_host,
+                   'req_node': req_node, 'require_tls': None, 'by_name': by_name}
     for active, enable, require, peer_can, hs, cert in itertools.product(
             (False, True), (False, True), (None, True, False), (False, True), ('ok', 'fail'), (None, ['ip-match'])):
         yield {'kind': 'table', 'active': active, 'tls_enable': enable, 'require_tls': require, 'peer_can_tls': peer_can,
